@@ -1,4 +1,121 @@
-// unit `upd` -- the document-free update functions (yrs/src/update.rs, yrs/src/block.rs).  Serves C08 (kernel only).
+// unit `upd` -- the DOCUMENT-FREE update functions (yrs/src/update.rs, yrs/src/block.rs).  Serves C08 (kernel only).
+//
+// C08: "Operating on encoded updates without a document is equivalent to operating through one: ... applying
+// diff_updates(u, sv) to a document whose state vector is sv has the same effect as applying u; and
+// encode_state_vector_from_update(u) equals the state vector of an empty document after applying u whenever u is gap-free
+// from clock 0 for every client it mentions."
+// The public functions live in yrs/src/alt.rs and are thin wrappers (decode, call, encode):
+//   encode_state_vector_from_update_v1/v2(u)  = Update::decode(u)?.state_vector().encode()
+//   diff_updates_v1/v2(u, sv)                 = Update::decode(u)?.encode_diff(&StateVector::decode(sv)?, &mut encoder)
+// This unit puts the functions in the middle under contract, on the decoded value:
+//
+//   Update::state_vector         WHOLE FUNCTION.  for every client c: sv_get(result, c) == sv_upper(blocks_of(u, c)): if the
+//                                list of c starts at clock 0, the end clock of the maximal prefix without a Skip, else 0.
+//                                `lemma_sv_upper_meaning`: under the representation invariant this is the end of the gap-free
+//                                prefix from clock 0 (every clock below it is carried, the prefix is maximal; for a list
+//                                without Skip that starts at 0 it is the end clock of the last block).
+//   Update::state_vector_lower   WHOLE FUNCTION.  sv_get(result, c) == clock of the first non-skip block of c (0 if none).
+//   Update::encode_diff          WHOLE FUNCTION (five statements re-spelled, see REWRITES).  There is a listing `es` of client
+//                                sections with `sel_listing(es, u, remote)`:
+//                                  * a client has a section iff some non-skip block of its list ends after the remote clock r,
+//                                  * the section's blocks are exactly the suffix of the list from the FIRST such block on,
+//                                  * its offset is max(r - first.clock, 0),
+//                                  * sections are ordered by client id, highest first, no client twice,
+//                                and the tokens appended to the encoder are exactly `emit_update(log, es, delete_set)`:
+//                                  Var(#sections), then per section Var(#blocks) Client(c) Var(first.clock + offset)
+//                                  block_tokens(first, offset) block_tokens(b, 0).., then the delete set.
+//                                `lemma_diff_exact` / `lemma_section_exact` (pure, over the views): the written sections carry
+//                                exactly the clocks of `u` that a receiver with state vector `remote` lacks (nothing it lacks is
+//                                omitted -- no order assumption; nothing it has is sent -- ordered lists), the first written
+//                                clock is max(r, first.clock), and for contiguous lists the reader's running clock
+//                                (`Update::decode`: clock header, then `clock += block.len()`) re-derives every block's own id.
+//   Block::encode_with_offset    WHOLE FUNCTION.  appends `block_tokens(b, offset)`: Item -> the item slice [offset ..= len-1]
+//                                (abstract, = unit header's `grammar(header_of_slice(item, offset, len - 1))`), GC -> Info(0)
+//                                Len(len - offset), Skip -> Info(10) Var(len - offset)  (same layout as unit header's
+//                                grammar_gc / grammar_skip, i.e. what `Update::decode_block` reads).
+//   <Update as Encode>::encode   WHOLE FUNCTION (= encode_diff against the empty state vector), same contract with remote = {}.
+//   Block::{id, len, is_skip}, Item::{id, len}, BlockRange::id, ID::new, ItemSlice::new, StateVector::get   (whole functions)
+//   LIFTED STEPS (R18 statement regions of the same source text, each with a contract of its own, so that an edit fails a
+//   contract clause and not only a spliced loop invariant): `state_vector_client` (what state_vector computes for one list:
+//   == sv_upper), `encode_diff_offset` (the stored offset == max(r - clock, 0)), `encode_diff_section` (the body of the
+//   writing loop appends exactly `emit_section`).
+//
+// NOT DECIDED HERE (C08 is claimed as a kernel only):
+//   * `Update::merge_updates` (150 lines over `Memo<IntoBlocks>` carriers, `retain`/`sort_by` with closures, `Option::take`,
+//     `splice`/`try_squash` through ItemPtr): OUT OF SCOPE, not ingested, nothing claimed about merge_updates_v1/v2.
+//   * integration: "an empty document that integrates blocks covering [0, n) of client c ends with state-vector entry n" and
+//     "a document with state vector sv that integrates the written sections ends like one that integrates u" are the
+//     document side of the equivalence (Update::integrate, BlockStore); the unit decides what is handed to it.
+//   * `Update::decode` / `StateVector::decode` / the byte level of the encoders (C09, C10 units lib0*, dec_comp).
+//   * the tokens of an item slice (unit header: `ItemSlice::encode`) and of the delete set (`IdSet::encode`): abstract here.
+//
+// REPRESENTATION INVARIANT (an ASSUMPTION about `Update` values, established outside the unit):
+//   upd_ok   every block: clock + len <= u32::MAX (clocks are u32; `Update::decode` adds lengths to a u32 clock), an Item has
+//            len >= 1 (`Item::new` returns None for empty content and `decode_block` then yields no block).
+//            REQUIRED by state_vector / state_vector_lower / encode_diff (weakest precondition of `clock + len`, `len - 1`).
+//   upd_items_ok   every Item satisfies the abstract `item_rest_ok`: the part of unit header's precondition of
+//            `ItemSlice::encode` that speaks about DROPPED fields -- `len == content.len(Utf16)` (header's Item::wf, established
+//            by `Item::new`) and "an item that has neither origin nor right origin knows its parent" (`decode_block` reads a
+//            parent exactly in that case).  REQUIRED by encode_diff.
+//   upd_wf   = upd_ok + per client the blocks are CONTIGUOUS: b[i].clock + b[i].len == b[i+1].clock (hence sorted and
+//            non-overlapping; gaps are explicit Skip blocks).  Established by `Update::decode` for a wire update that lists a
+//            client once (clocks are derived: `clock += block.len()`; every encoder of the crate writes one section per
+//            client) and by `merge_updates` (which synthesises Skips) -- both outside the unit.  NOT required by any function
+//            contract; it is the hypothesis of the meaning lemmas (`lemma_sv_upper_meaning`, `lemma_state_vector_gap_free`,
+//            clause (3) of `lemma_section_exact`).  Without it `state_vector` still returns `sv_upper`, but that number is
+//            then not "the gap-free prefix" (e.g. blocks 0..5, 9..12 without a Skip give 12), and `encode_diff` writes
+//            clocks that the reader re-derives differently.  Such values cannot come out of `decode` of a one-section-per-
+//            client update.
+//
+// STAND-IN TYPES (everything else is extracted verbatim from /repo)
+//   ClientID     opaque ordered value with structural equality (real: `ClientID(NonZeroU64)`, derived Eq/Hash/Ord).
+//   Item         sliced to `id`, `len`.  DROPPED: left, right, origin, right_origin, content, parent, redone, parent_sub, info
+//                -- kept as ONE opaque field `vx_rest` so that the abstract token function of an item slice may depend on them.
+//   ItemSlice    `ptr: &'a Item` instead of `ptr: ItemPtr` (real: `ItemPtr(NonNull<Item>)` with Deref; read-only lowering as in
+//                unit header).  `x.as_ref().into()` (`&Box<Item>` -> `&Item` -> `ItemPtr::from`) is spelled `vx_item_ptr(x)`,
+//                a VERIFIED identity function (SUB, logged).
+//   IdSet        opaque (only handed to `IdSet::encode`).
+//   BlockSet     extracted; `VecDeque<Block>` is spelled `Vec<Block>` and the hasher parameter is dropped (SUB, logged): the
+//                functions of this unit only use `iter()`, `[i]`, `is_empty()`, `len()` of the per-client list.
+//   Update, StateVector, ID, BlockRange, enum Block: extracted (StateVector without the hasher parameter, as in unit sv).
+//   Encoder      trait with a ghost token log (as in unit header): `write_client`, `write_info`, `write_len` signatures
+//                extracted from the real trait; `write_var::<T: VarInt>` from the supertrait `lib0::Write` (default body
+//                dropped), `VarInt` reduced to "has an integer value" (u32, usize).
+//   Kernels      supertrait of Encoder with TWO BODILESS methods standing for callees that are not part of this unit:
+//                  encode_item_slice(&ItemSlice, enc)   = `ItemSlice::encode`  (contract proved in unit header: appends the
+//                                                         block that describes the sub-range; here abstract `item_slice_toks`)
+//                  encode_id_set(&IdSet, enc)           = `<IdSet as Encode>::encode` (appends abstract `id_set_toks`)
+//                The calls `slice.encode(encoder)` / `self.delete_set.encode(encoder)` are spelled `E::encode_item_slice(..)` /
+//                `E::encode_id_set(..)` (SUB, logged; same trick as `E::split_str` in unit header).
+//
+// TRUSTED (module vx_trusted, listed by the trust scanner)
+//   axiom_client_id_key_model        A4 (as in unit sv): derived Hash/Eq of ClientID agree (vstd's HashMap specs need it).
+//   VxMapApi::vx_or_insert_with      std `HashMap::entry(k).or_insert_with(f)`: "Ensures a value is in the entry by inserting
+//                                    the result of the default function if empty, and returns a mutable reference to the value
+//                                    in the entry."  The closure stays the real one (`|| (0, Vec::new())`, annotated @closure).
+//   vx_filter_nonempty               std `m.iter().filter(|(_, (_, q))| !q.is_empty()).collect::<Vec<_>>()`: HashMap::iter
+//                                    "visits all key-value pairs in arbitrary order" (each once), Iterator::filter keeps
+//                                    exactly the elements for which the predicate holds, collect keeps the order.
+//   vx_sort_by_client_desc           std `v.sort_by(|&(x_id, _), &(y_id, _)| y_id.cmp(x_id))`: the result is a permutation of
+//                                    the input, ordered by the comparator (here: client id descending).
+//   (Verus rejects closure parameter patterns and has no specification of sort_by, so the two statements cannot be ingested;
+//   the SUB `from=` text contains the closures, so an edit of either closure makes the rule miss and the run UNDECIDED.)
+//   StateVector::set_max             external_body STUB of a function proved in unit sv (contract text cross-checked by the
+//                                    extractor; its body needs `entry().or_default()`).  `StateVector::get` is re-verified here.
+//   uninterp: item_slice_toks, id_set_toks, item_rest_ok (abstract values, no axioms about them).
+//
+// REWRITES (all logged in the evidence): R9 (debug_assert in ItemSlice::new -> assert), R10 (pub(crate) -> pub), the SUB rules
+//   below: type spellings; `for (&client, blocks)` -> `for (client, blocks)` with `*client` at the use (Verus has no reference
+//   patterns); `for (&client, (offset, blocks)) in sorted_clients {` -> `for vx_e in sorted_clients {` + three `let`s that bind
+//   the same names (`client: ClientID`, `offset: &u32`, `blocks: &Vec<&Block>`); the call spellings listed above.
+//
+// FINDINGS: none.  (The shapes suggested for a finding do not occur: the selection loop skips leading Skip blocks, so the
+//   first selected block is never a Skip; `offset < first.len` always, so `len - offset` / `ItemSlice::new(ptr, offset, len-1)`
+//   are in range.)  OBSERVATIONS: (a) Skip blocks inside / at the end of the selected suffix are written (as Skips); (b) a
+//   GC or Skip block of length 0 can come off the wire (`decode_block` does not reject it); all contracts hold for it.
+//
+// Function bodies are pulled from /repo on every run by vx/extract.py; this file holds stand-in types, the specification,
+// the contracts and the proof hints only.
 #![allow(unused_imports, unused_variables, unused_mut, dead_code, unused_parens, unused_braces, unused_assignments)]
 use vstd::prelude::*;
 use std::collections::HashMap;
@@ -14,16 +131,14 @@ verus! {
    SUB(from=(client, id.clock);;to=(*client, id.clock))
    SUB(from=x.as_ref().into();;to=vx_item_ptr(x))
    SUB(from=slice.encode(encoder);;to=E::encode_item_slice(&slice, encoder))
+   SUB(from=self.delete_set.encode(encoder);;to=E::encode_id_set(&self.delete_set, encoder))
+   SUB(from=.entry(*client).or_insert_with(|| (0, Vec::new()));;to=.vx_or_insert_with(*client, || (0, Vec::new())))
+   SUB(from=clients.iter().filter(|(_, (_, q))| !q.is_empty()).collect();;to=vx_filter_nonempty(&clients))
+   SUB(from=sorted_clients.sort_by(|&(x_id, _), &(y_id, _)| y_id.cmp(x_id));;to=vx_sort_by_client_desc(&mut sorted_clients))
+   SUB(from=for (&client, (offset, blocks)) in sorted_clients {;;to=for vx_e in sorted_clients { let client: ClientID = *vx_e.0; let offset: &u32 = &(vx_e.1).0; let blocks: &Vec<&Block> = &(vx_e.1).1;)
 @*/
 
-pub mod vx_base {
-    use vstd::prelude::*;
-    use core::ops::Range;
-/*@include vx/prelude.rs @*/
-}
-use vx_base::*;
-
-#[derive(PartialEq, Eq, Structural, Clone, Copy, Hash)]
+#[derive(PartialEq, Eq, PartialOrd, Ord, Structural, Clone, Copy, Hash)]
 pub struct ClientID(pub u64);
 
 pub mod vx_trusted {
@@ -32,10 +147,79 @@ pub mod vx_trusted {
     use std::collections::HashMap;
     use super::ClientID;
 
+    /// A4: the derived `Hash` and `Eq` of ClientID agree, i.e. ClientID is a lawful std::collections::HashMap key
+    /// (stated as an `external_body` proof fn rather than `axiom fn` so that the framework's trust scanner lists it)
     #[verifier::external_body] pub broadcast proof fn axiom_client_id_key_model()
         ensures
             #[trigger] obeys_key_model::<ClientID>(),
     {
+    }
+
+    /// A2: std `HashMap::entry(k).or_insert_with(f)`: "Ensures a value is in the entry by inserting the result of the default
+    /// function if empty, and returns a mutable reference to the value in the entry."  No other key is touched; the
+    /// function is only called when the key is absent.
+    pub trait VxMapApi<V> {
+        spec fn vx_view(&self) -> Map<ClientID, V>;
+
+        fn vx_or_insert_with<'a, F: FnOnce() -> V>(&'a mut self, k: ClientID, f: F) -> (r: &'a mut V)
+            requires
+                !old(self).vx_view().contains_key(k) ==> call_requires(f, ()),
+            ensures
+                old(self).vx_view().contains_key(k) ==> *r == old(self).vx_view()[k],
+                !old(self).vx_view().contains_key(k) ==> call_ensures(f, (), *r),
+                final(self).vx_view() == old(self).vx_view().insert(k, *final(r)),
+        ;
+    }
+
+    impl<V> VxMapApi<V> for HashMap<ClientID, V> {
+        open spec fn vx_view(&self) -> Map<ClientID, V> { self@ }
+
+        #[verifier::external_body]
+        fn vx_or_insert_with<'a, F: FnOnce() -> V>(&'a mut self, k: ClientID, f: F) -> (r: &'a mut V)
+        {
+            self.entry(k).or_insert_with(f)
+        }
+    }
+
+    /// A2: std `m.iter().filter(|(_, (_, q))| !q.is_empty()).collect::<Vec<_>>()` (the body is that expression).
+    /// HashMap::iter: "An iterator visiting all key-value pairs in arbitrary order" (every pair once: keys are distinct);
+    /// Iterator::filter: "the returned iterator will yield only the elements for which the closure returns true";
+    /// collect::<Vec<_>>: the yielded elements, in order.
+    #[verifier::external_body]
+    pub fn vx_filter_nonempty<'a, T>(m: &'a HashMap<ClientID, (u32, Vec<T>)>) -> (r: Vec<(&'a ClientID, &'a (u32, Vec<T>))>)
+        ensures
+            forall|i: int| 0 <= i < r@.len() ==> m@.contains_key(*(#[trigger] r@[i]).0) && m@[*r@[i].0] == *r@[i].1 && r@[i].1.1@.len() > 0,
+            forall|i: int, j: int| 0 <= i < j < r@.len() ==> *(#[trigger] r@[i]).0 != *(#[trigger] r@[j]).0,
+            forall|k: ClientID| m@.contains_key(k) && m@[k].1@.len() > 0 ==> exists|i: int| 0 <= i < r@.len() && *(#[trigger] r@[i]).0 == k,
+    {
+        m.iter().filter(|(_, (_, q))| !q.is_empty()).collect()
+    }
+
+    /// `p` is a permutation of 0..n (injective and onto; both stated so that neither direction needs a pigeonhole proof)
+    pub open spec fn is_permutation(p: Seq<int>, n: int) -> bool {
+        &&& p.len() == n
+        &&& forall|i: int| 0 <= i < n ==> 0 <= #[trigger] p[i] < n
+        &&& forall|i: int, j: int| 0 <= i < j < n ==> #[trigger] p[i] != #[trigger] p[j]
+        &&& forall|k: int| 0 <= k < n ==> #[trigger] perm_hits(p, k)
+    }
+
+    pub open spec fn perm_hits(p: Seq<int>, k: int) -> bool {
+        exists|i: int| 0 <= i < p.len() && #[trigger] p[i] == k
+    }
+
+    /// A2: std `v.sort_by(|&(x_id, _), &(y_id, _)| y_id.cmp(x_id))` (the body is that statement).  slice::sort_by: "Sorts the
+    /// slice in ascending order with a comparison function": the result is a permutation of the input and every pair
+    /// i < j satisfies compare(v[i], v[j]) != Greater; the comparator compares the SECOND argument's client id with the
+    /// first's, i.e. descending client ids.  The order of ClientID is the derived `Ord` of its integer (real: NonZeroU64 with
+    /// the same constant high bits set on every id, order-isomorphic).
+    #[verifier::external_body]
+    pub fn vx_sort_by_client_desc<T>(v: &mut Vec<(&ClientID, T)>)
+        ensures
+            final(v)@.len() == old(v)@.len(),
+            exists|p: Seq<int>| is_permutation(p, old(v)@.len() as int) && forall|i: int| 0 <= i < p.len() ==> #[trigger] final(v)@[i] == old(v)@[p[i]],
+            forall|i: int, j: int| 0 <= i < j < final(v)@.len() ==> (#[trigger] final(v)@[i]).0.0 >= (#[trigger] final(v)@[j]).0.0,
+    {
+        v.sort_by(|&(x_id, _), &(y_id, _)| y_id.cmp(x_id));
     }
 }
 use vx_trusted::*;
@@ -48,8 +232,10 @@ broadcast use axiom_client_id_key_model;
 #[derive(Copy, Clone, PartialEq, Eq, Structural)]
 /*@extract yrs/src/block.rs | - | struct BlockRange @*/
 
+/// opaque: everything of an Item except `id` and `len` (see the header comment)
 pub struct ItemRest(pub u64);
 
+/// sliced, see the header comment
 pub struct Item {
     pub id: ID,
     pub len: u32,
@@ -60,6 +246,7 @@ pub struct Item {
 
 /*@extract yrs/src/update.rs | - | struct BlockSet @*/
 
+/// opaque, see the header comment
 pub struct IdSet(pub u64);
 
 /*@extract yrs/src/update.rs | - | struct Update @*/
@@ -74,6 +261,8 @@ impl View for StateVector {
     }
 }
 
+// ---- state vectors: the vocabulary of unit sv (the stub contracts below must be textually those of unit sv)
+/// the clock of client `c`: absent means 0
 pub open spec fn sv_get(m: Map<ClientID, u32>, c: ClientID) -> u32 {
     if m.contains_key(c) { m[c] } else { 0 }
 }
@@ -90,6 +279,7 @@ pub open spec fn sv_single(c: ClientID, k: u32) -> Map<ClientID, u32> {
     Map::<ClientID, u32>::empty().insert(c, k)
 }
 
+/// `#[derive(Default)]` of StateVector, written out (an empty map) and verified against vstd's HashMap::new
 impl Default for StateVector {
     fn default() -> (r: Self)
         ensures r@ == Map::<ClientID, u32>::empty(),
@@ -99,8 +289,6 @@ impl Default for StateVector {
 }
 
 impl StateVector {
-    // proved in unit sv
-    #[verifier::external_body]
     /*@extract yrs/src/state_vector.rs | impl StateVector | fn get
     @ret r
     @sig
@@ -121,7 +309,7 @@ impl StateVector {
 }
 
 // ---------------------------------------------------------------------------------------------
-// views
+// views: an update is, per client, a sequence of BlockView { clock, len, kind }
 // ---------------------------------------------------------------------------------------------
 pub enum Kind { Item, GC, Skip }
 
@@ -165,10 +353,13 @@ pub open spec fn end_of(b: BlockView) -> int {
     b.clock + b.len
 }
 
+/// no clock arithmetic overflows; an Item is not empty (see REPRESENTATION INVARIANT in the header comment)
 pub open spec fn list_ok(s: Seq<BlockView>) -> bool {
     forall|i: int| 0 <= i < s.len() ==> 0 <= (#[trigger] s[i]).clock && 0 <= s[i].len && end_of(s[i]) <= u32::MAX && (s[i].kind is Item ==> s[i].len >= 1)
 }
 
+/// every block starts where its predecessor ends (gaps are explicit Skip blocks).  Two index variables: a quantifier with
+/// `s[i + 1]` under the trigger `s[i]` is a matching loop.
 pub open spec fn list_contiguous(s: Seq<BlockView>) -> bool {
     forall|i: int, j: int| 0 <= i && j == i + 1 && j < s.len() ==> end_of(#[trigger] s[i]) == (#[trigger] s[j]).clock
 }
@@ -177,6 +368,7 @@ pub open spec fn upd_ok(u: Map<ClientID, Vec<Block>>) -> bool {
     forall|c: ClientID| #[trigger] u.contains_key(c) ==> list_ok(views(u[c]@))
 }
 
+/// the representation invariant of a decoded / merged update (an ASSUMPTION, see the header comment)
 pub open spec fn upd_wf(u: Map<ClientID, Vec<Block>>) -> bool {
     forall|c: ClientID| #[trigger] u.contains_key(c) ==> list_ok(views(u[c]@)) && list_contiguous(views(u[c]@))
 }
@@ -188,6 +380,7 @@ pub open spec fn first_skip(s: Seq<BlockView>, i: int) -> int
     if i < 0 || i >= s.len() || is_skip(s[i]) { i } else { first_skip(s, i + 1) }
 }
 
+/// C08 / `state_vector()`: if the list starts at clock 0, the end clock of the maximal prefix without a Skip; else 0
 pub open spec fn sv_upper(s: Seq<BlockView>) -> int {
     if s.len() > 0 && s[0].clock == 0 {
         let n = first_skip(s, 0);
@@ -197,19 +390,21 @@ pub open spec fn sv_upper(s: Seq<BlockView>) -> int {
     }
 }
 
-/// first non-skip block's clock (0 if there is none)
+/// index of the first non-skip block at or after `i` (the length of the list if there is none)
 pub open spec fn first_non_skip(s: Seq<BlockView>, i: int) -> int
     decreases s.len() - i,
 {
     if i < 0 || i >= s.len() || !is_skip(s[i]) { i } else { first_non_skip(s, i + 1) }
 }
 
+/// `state_vector_lower()`: the clock of the first non-skip block (0 if there is none)
 pub open spec fn sv_lower(s: Seq<BlockView>) -> int {
     let n = first_non_skip(s, 0);
     if n < s.len() { s[n].clock } else { 0 }
 }
 
-// ---- iteration over a HashMap
+// ---- iteration over a HashMap (vstd's HashMap::iter: a duplicate-free sequence of exactly the map's (key, value) pairs);
+// same predicates as in unit sv, generic in the value type
 pub open spec fn iter_of<V>(s: Seq<(&ClientID, &V)>, m: Map<ClientID, V>) -> bool {
     &&& s.len() == m.len()
     &&& s.no_duplicates()
@@ -258,24 +453,6 @@ pub proof fn lemma_keys_upto_step<V>(s: Seq<(&ClientID, &V)>, m: Map<ClientID, V
     assert forall|x: ClientID| keys_upto(s, n).contains(x) implies m.contains_key(x) by {
         let j = choose|j: int| 0 <= j < n && *(#[trigger] s[j]).0 == x;
         assert(m.contains_key(*s[j].0));
-    }
-}
-
-pub proof fn lemma_keys_upto_all<V>(s: Seq<(&ClientID, &V)>, m: Map<ClientID, V>)
-    requires
-        iter_of(s, m),
-    ensures
-        forall|x: ClientID| keys_upto(s, s.len() as int).contains(x) <==> m.contains_key(x),
-{
-    assert forall|x: ClientID| keys_upto(s, s.len() as int).contains(x) <==> m.contains_key(x) by {
-        if keys_upto(s, s.len() as int).contains(x) {
-            let j = choose|j: int| 0 <= j < s.len() && *(#[trigger] s[j]).0 == x;
-            assert(m.contains_key(*s[j].0));
-        }
-        if m.contains_key(x) {
-            let j = choose|j: int| 0 <= j < s.len() && *(#[trigger] s[j]).0 == x;
-            assert(0 <= j < s.len() as int && *s[j].0 == x);
-        }
     }
 }
 
@@ -341,10 +518,12 @@ pub enum Tok {
     Len(u32),
     Var(int),
     Client(ClientID),
-    /// any token written by `ItemSlice::encode` / `IdSet::encode` (opaque here)
+    /// a token of a kind this unit's code never writes itself (unit header: LeftId, RightId, String, ...; the delete-set
+    /// columns): only inside the abstract sequences `item_slice_toks` / `id_set_toks`
     Other(int),
 }
 
+/// `lib0::VarInt`, reduced to "has an integer value" (the byte level is C09's)
 pub trait VarInt: Sized + Copy {
     spec fn vx_val(&self) -> int;
 }
@@ -357,12 +536,18 @@ impl VarInt for usize {
     open spec fn vx_val(&self) -> int { *self as int }
 }
 
+/// the tokens `ItemSlice::encode` appends for the sub-range [start ..= end] of `item`
+/// (unit header: `grammar(header_of_slice(item, start, end))`; abstract here, no axioms)
 pub uninterp spec fn item_slice_toks(item: Item, start: u32, end: u32) -> Seq<Tok>;
 
+/// the tokens `<IdSet as Encode>::encode` appends (abstract here, no axioms)
 pub uninterp spec fn id_set_toks(ds: IdSet) -> Seq<Tok>;
 
-pub uninterp spec fn item_parent_known(item: Item) -> bool;
+/// the part of the precondition of unit header's `ItemSlice::encode` that speaks about dropped fields of Item
+/// (see `upd_items_ok` in the header comment; abstract here, no axioms)
+pub uninterp spec fn item_rest_ok(item: Item) -> bool;
 
+/// stand-in, see the header comment (real: `ptr: ItemPtr`)
 pub struct ItemSlice<'a> {
     pub ptr: &'a Item,
     pub start: u32,
@@ -370,6 +555,7 @@ pub struct ItemSlice<'a> {
 }
 
 impl<'a> ItemSlice<'a> {
+    /// as in unit header: a slice designates the non-empty range [start ..= end] inside its (non-empty) item
     pub open spec fn wf(&self) -> bool {
         &&& self.ptr.len >= 1
         &&& self.ptr.id.clock + self.ptr.len <= u32::MAX
@@ -385,23 +571,28 @@ impl<'a> ItemSlice<'a> {
     @*/
 }
 
+/// `x.as_ref().into()` (`&Box<Item>` -> `&Item` -> `ItemPtr`): the pointer to the boxed item, as a borrow (verified)
 pub fn vx_item_ptr<'a>(x: &'a Box<Item>) -> (r: &'a Item)
     ensures *r == **x,
 {
     &**x
 }
 
+/// callees that are not part of this unit, as bodiless methods of a supertrait of the encoder (see the header comment)
 pub trait Kernels: Sized {
+    /// the tokens written so far
     spec fn log(&self) -> Seq<Tok>;
 
+    /// `ItemSlice::encode(&self, encoder)` (slice.rs; under contract in unit header)
     fn encode_item_slice(slice: &ItemSlice<'_>, encoder: &mut Self)
         requires
             slice.wf(),
-            slice.start == 0 ==> item_parent_known(*slice.ptr),
+            item_rest_ok(*slice.ptr),
         ensures
             final(encoder).log() == old(encoder).log() + item_slice_toks(*slice.ptr, slice.start, slice.end),
     ;
 
+    /// `<IdSet as Encode>::encode(&self, encoder)` (id_set.rs)
     fn encode_id_set(ds: &IdSet, encoder: &mut Self)
         ensures
             final(encoder).log() == old(encoder).log() + id_set_toks(*ds),
@@ -461,7 +652,7 @@ pub proof fn lemma_emit_block(l: Seq<Tok>, b: Block, offset: u32)
 /// a block that can be written from `offset` on
 pub open spec fn block_encodable(b: Block, offset: u32) -> bool {
     match b {
-        Block::Item(x) => x.len >= 1 && x.id.clock + x.len <= u32::MAX && offset < x.len && (offset == 0 ==> item_parent_known(*x)),
+        Block::Item(x) => x.len >= 1 && x.id.clock + x.len <= u32::MAX && offset < x.len && item_rest_ok(*x),
         Block::Skip(r) => offset <= r.len,
         Block::GC(r) => offset <= r.len,
     }
@@ -477,7 +668,659 @@ impl Block {
     @*/
 }
 
+// ---------------------------------------------------------------------------------------------
+// encode_diff: selection
+// ---------------------------------------------------------------------------------------------
+/// first index >= i of a non-skip block that ends after `r` (the length of the list if there is none)
+pub open spec fn sel_start(s: Seq<BlockView>, r: int, i: int) -> int
+    decreases s.len() - i,
+{
+    if i < 0 || i >= s.len() || (!is_skip(s[i]) && end_of(s[i]) > r) { i } else { sel_start(s, r, i + 1) }
+}
+
+/// max(r - first.clock, 0)
+pub open spec fn sel_offset(b: BlockView, r: int) -> int {
+    if r > b.clock { r - b.clock } else { 0 }
+}
+
+/// the client gets a section: some non-skip block of its list ends after the remote clock
+pub open spec fn selected(u: Map<ClientID, Vec<Block>>, remote: Map<ClientID, u32>, c: ClientID) -> bool {
+    u.contains_key(c) && sel_start(views(u[c]@), sv_get(remote, c) as int, 0) < u[c]@.len()
+}
+
+/// the pair stored for a client whose list is `bs` when the remote clock is `r`
+pub open spec fn sel_entry_ok(e: (u32, Vec<&Block>), bs: Seq<Block>, r: int) -> bool {
+    let s = views(bs);
+    let k = sel_start(s, r, 0);
+    &&& 0 <= k < bs.len()
+    &&& e.0 == sel_offset(s[k], r)
+    &&& e.1@.len() == bs.len() - k
+    &&& forall|j: int| 0 <= j < e.1@.len() ==> *(#[trigger] e.1@[j]) == bs[k + j]
+}
+
+/// the selection map after the clients in `seen` have been looked at (`seen` = all clients: the result of the first loop)
+pub open spec fn sel_inv(sel: Map<ClientID, (u32, Vec<&Block>)>, u: Map<ClientID, Vec<Block>>, remote: Map<ClientID, u32>, seen: ISet<ClientID>) -> bool {
+    forall|c: ClientID| #![trigger sel.contains_key(c)] #![trigger seen.contains(c)]
+        (sel.contains_key(c) <==> seen.contains(c) && selected(u, remote, c))
+        && (sel.contains_key(c) ==> sel_entry_ok(sel[c], u[c]@, sv_get(remote, c) as int))
+}
+
+/// position of `curr` in the list, from the slice iterator's (prophetic) remaining sequence: no ghost counter is needed, so
+/// the hints do not depend on where the code advances the iterator
+pub open spec fn pos(rem0: Seq<&Block>, rem: Seq<&Block>, curr: Option<&Block>) -> int {
+    if curr is Some { rem0.len() - rem.len() - 1 } else { rem0.len() as int }
+}
+
+pub open spec fn cursor_ok(rem0: Seq<&Block>, rem: Seq<&Block>, curr: Option<&Block>) -> bool {
+    match curr {
+        Some(b) => rem.len() < rem0.len() && b == rem0[rem0.len() - rem.len() - 1] && rem =~= rem0.skip(rem0.len() - rem.len()),
+        None => true,
+    }
+}
+
+/// the map after the list of client `c` has been looked at
+pub open spec fn sel_done(sel: Map<ClientID, (u32, Vec<&Block>)>, m0: Map<ClientID, (u32, Vec<&Block>)>, c: ClientID, bs: Seq<Block>, r: int) -> bool {
+    if sel_start(views(bs), r, 0) < bs.len() {
+        sel.contains_key(c) && sel == m0.insert(c, sel[c]) && sel_entry_ok(sel[c], bs, r)
+    } else {
+        sel == m0
+    }
+}
+
+pub proof fn lemma_sel_step(sel: Map<ClientID, (u32, Vec<&Block>)>, m0: Map<ClientID, (u32, Vec<&Block>)>, u: Map<ClientID, Vec<Block>>, remote: Map<ClientID, u32>, seen: ISet<ClientID>, c: ClientID)
+    requires
+        sel_inv(m0, u, remote, seen),
+        !seen.contains(c),
+        u.contains_key(c),
+        sel_done(sel, m0, c, u[c]@, sv_get(remote, c) as int),
+    ensures
+        sel_inv(sel, u, remote, seen.insert(c)),
+{
+    let seen2 = seen.insert(c);
+    assert(!m0.contains_key(c));
+    assert forall|x: ClientID| #![trigger sel.contains_key(x)] #![trigger seen2.contains(x)]
+        (sel.contains_key(x) <==> seen2.contains(x) && selected(u, remote, x))
+        && (sel.contains_key(x) ==> sel_entry_ok(sel[x], u[x]@, sv_get(remote, x) as int)) by {
+        if x != c {
+            assert(seen2.contains(x) <==> seen.contains(x));
+            assert(sel.contains_key(x) <==> m0.contains_key(x));
+            if m0.contains_key(x) {
+                assert(sel[x] == m0[x]);
+            }
+        }
+    }
+}
+
+// ---------------------------------------------------------------------------------------------
+// encode_diff: what is written
+// ---------------------------------------------------------------------------------------------
+/// one client section of the written update: the client, the offset into the first block, the blocks
+pub struct SelView {
+    pub client: ClientID,
+    pub offset: u32,
+    pub blocks: Seq<Block>,
+}
+
+pub open spec fn section_view(client: ClientID, offset: u32, blocks: Seq<&Block>) -> SelView {
+    SelView { client, offset, blocks: Seq::new(blocks.len(), |j: int| *blocks[j]) }
+}
+
+pub open spec fn sel_view(e: (&ClientID, &(u32, Vec<&Block>))) -> SelView {
+    section_view(*e.0, e.1.0, e.1.1@)
+}
+
+pub open spec fn sel_views(v: Seq<(&ClientID, &(u32, Vec<&Block>))>) -> Seq<SelView> {
+    Seq::new(v.len(), |i: int| sel_view(v[i]))
+}
+
+/// the section of a selected client is the suffix of its list from the first non-skip block that ends after the remote
+/// clock, cut at the remote clock
+pub open spec fn sel_view_ok(e: SelView, u: Map<ClientID, Vec<Block>>, remote: Map<ClientID, u32>) -> bool {
+    &&& selected(u, remote, e.client)
+    &&& ({
+        let bs = u[e.client]@;
+        let r = sv_get(remote, e.client) as int;
+        let k = sel_start(views(bs), r, 0);
+        &&& 0 <= k < bs.len()
+        &&& e.blocks == bs.skip(k)
+        &&& e.offset == sel_offset(views(bs)[k], r)
+    })
+}
+
+/// `es` lists exactly the selected clients, highest client id first
+pub open spec fn sel_listing(es: Seq<SelView>, u: Map<ClientID, Vec<Block>>, remote: Map<ClientID, u32>) -> bool {
+    &&& forall|i: int| 0 <= i < es.len() ==> sel_view_ok(#[trigger] es[i], u, remote)
+    &&& forall|i: int, j: int| 0 <= i < j < es.len() ==> (#[trigger] es[i]).client.0 > (#[trigger] es[j]).client.0
+    &&& forall|c: ClientID| selected(u, remote, c) ==> exists|i: int| 0 <= i < es.len() && (#[trigger] es[i]).client == c
+}
+
+/// `l` followed by the first `n` blocks of a section (the first one from `off` on), in push form
+pub open spec fn emit_blocks(l: Seq<Tok>, bs: Seq<Block>, off: u32, n: int) -> Seq<Tok>
+    decreases n,
+{
+    if n <= 0 { l } else { emit_block(emit_blocks(l, bs, off, n - 1), bs[n - 1], if n == 1 { off } else { 0u32 }) }
+}
+
+/// number of blocks, client, clock of the first written element (what `Update::decode` reads per client)
+pub open spec fn emit_section_head(l: Seq<Tok>, e: SelView) -> Seq<Tok> {
+    l.push(Tok::Var(e.blocks.len() as int)).push(Tok::Client(e.client)).push(Tok::Var(e.blocks[0].bv().clock + e.offset))
+}
+
+pub open spec fn emit_section(l: Seq<Tok>, e: SelView) -> Seq<Tok> {
+    emit_blocks(emit_section_head(l, e), e.blocks, e.offset, e.blocks.len() as int)
+}
+
+pub open spec fn emit_sections(l: Seq<Tok>, es: Seq<SelView>, n: int) -> Seq<Tok>
+    decreases n,
+{
+    if n <= 0 { l } else { emit_section(emit_sections(l, es, n - 1), es[n - 1]) }
+}
+
+/// everything `encode_diff` appends
+pub open spec fn emit_update(l: Seq<Tok>, es: Seq<SelView>, ds: IdSet) -> Seq<Tok> {
+    emit_sections(l.push(Tok::Var(es.len() as int)), es, es.len() as int) + id_set_toks(ds)
+}
+
+// ---- the same layout as a sequence that is appended (`+` form); the contracts are stated in push form because then the
+// code's own sequence of `write_*` calls produces the very same term
+pub open spec fn blocks_toks(bs: Seq<Block>, off: u32, n: int) -> Seq<Tok>
+    decreases n,
+{
+    if n <= 0 { Seq::empty() } else { blocks_toks(bs, off, n - 1) + block_tokens(bs[n - 1], if n == 1 { off } else { 0u32 }) }
+}
+
+pub open spec fn section_toks(e: SelView) -> Seq<Tok> {
+    seq![Tok::Var(e.blocks.len() as int), Tok::Client(e.client), Tok::Var(e.blocks[0].bv().clock + e.offset)]
+        + blocks_toks(e.blocks, e.offset, e.blocks.len() as int)
+}
+
+pub open spec fn sections_toks(es: Seq<SelView>, n: int) -> Seq<Tok>
+    decreases n,
+{
+    if n <= 0 { Seq::empty() } else { sections_toks(es, n - 1) + section_toks(es[n - 1]) }
+}
+
+/// everything `encode_diff` appends: the number of sections, the sections, the delete set
+pub open spec fn update_toks(es: Seq<SelView>, ds: IdSet) -> Seq<Tok> {
+    seq![Tok::Var(es.len() as int)] + sections_toks(es, es.len() as int) + id_set_toks(ds)
+}
+
+pub proof fn lemma_emit_blocks(l: Seq<Tok>, bs: Seq<Block>, off: u32, n: int)
+    ensures
+        emit_blocks(l, bs, off, n) == l + blocks_toks(bs, off, n),
+    decreases n,
+{
+    if n <= 0 {
+        assert(l + blocks_toks(bs, off, n) =~= l);
+    } else {
+        let o = if n == 1 { off } else { 0u32 };
+        lemma_emit_blocks(l, bs, off, n - 1);
+        lemma_emit_block(l + blocks_toks(bs, off, n - 1), bs[n - 1], o);
+        assert((l + blocks_toks(bs, off, n - 1)) + block_tokens(bs[n - 1], o) =~= l + blocks_toks(bs, off, n));
+    }
+}
+
+pub proof fn lemma_emit_section(l: Seq<Tok>, e: SelView)
+    ensures
+        emit_section(l, e) == l + section_toks(e),
+{
+    let h = emit_section_head(l, e);
+    lemma_emit_blocks(h, e.blocks, e.offset, e.blocks.len() as int);
+    assert(h =~= l + seq![Tok::Var(e.blocks.len() as int), Tok::Client(e.client), Tok::Var(e.blocks[0].bv().clock + e.offset)]);
+    assert(h + blocks_toks(e.blocks, e.offset, e.blocks.len() as int) =~= l + section_toks(e));
+}
+
+pub proof fn lemma_emit_sections(l: Seq<Tok>, es: Seq<SelView>, n: int)
+    ensures
+        emit_sections(l, es, n) == l + sections_toks(es, n),
+    decreases n,
+{
+    if n <= 0 {
+        assert(l + sections_toks(es, n) =~= l);
+    } else {
+        lemma_emit_sections(l, es, n - 1);
+        lemma_emit_section(l + sections_toks(es, n - 1), es[n - 1]);
+        assert((l + sections_toks(es, n - 1)) + section_toks(es[n - 1]) =~= l + sections_toks(es, n));
+    }
+}
+
+/// push form == `log + update_toks(es, ds)`
+pub proof fn lemma_emit_update(l: Seq<Tok>, es: Seq<SelView>, ds: IdSet)
+    ensures
+        emit_update(l, es, ds) == l + update_toks(es, ds),
+{
+    let l1 = l.push(Tok::Var(es.len() as int));
+    lemma_emit_sections(l1, es, es.len() as int);
+    assert(l1 =~= l + seq![Tok::Var(es.len() as int)]);
+    assert((l1 + sections_toks(es, es.len() as int)) + id_set_toks(ds) =~= l + update_toks(es, ds));
+}
+
+/// see the header comment
+pub open spec fn upd_items_ok(u: Map<ClientID, Vec<Block>>) -> bool {
+    forall|c: ClientID, i: int| #![trigger u[c]@[i]] u.contains_key(c) && 0 <= i < u[c]@.len() && u[c]@[i] is Item ==> item_rest_ok(*u[c]@[i]->Item_0)
+}
+
+pub open spec fn section_encodable(e: SelView) -> bool {
+    &&& e.blocks.len() > 0
+    &&& e.blocks[0].bv().clock + e.offset <= u32::MAX
+    &&& forall|j: int| 0 <= j < e.blocks.len() ==> block_encodable(#[trigger] e.blocks[j], if j == 0 { e.offset } else { 0u32 })
+}
+
+pub proof fn lemma_section_encodable(e: SelView, u: Map<ClientID, Vec<Block>>, remote: Map<ClientID, u32>)
+    requires
+        sel_view_ok(e, u, remote),
+        upd_ok(u),
+        upd_items_ok(u),
+    ensures
+        section_encodable(e),
+{
+    let bs = u[e.client]@;
+    let s = views(bs);
+    let r = sv_get(remote, e.client) as int;
+    let k = sel_start(s, r, 0);
+    lemma_sel_start(s, r, 0);
+    assert(list_ok(s));
+    assert forall|j: int| 0 <= j < e.blocks.len() implies block_encodable(#[trigger] e.blocks[j], if j == 0 { e.offset } else { 0u32 }) by {
+        assert(e.blocks[j] == bs[k + j]);
+        assert(s[k + j] == bs[k + j].bv());
+    }
+    assert(e.blocks[0] == bs[k]);
+    assert(s[k] == bs[k].bv());
+}
+
+/// `sel_start` returns the first selectable index
+pub proof fn lemma_sel_start(s: Seq<BlockView>, r: int, i: int)
+    requires
+        0 <= i <= s.len(),
+    ensures
+        i <= sel_start(s, r, i) <= s.len(),
+        sel_start(s, r, i) < s.len() ==> !is_skip(s[sel_start(s, r, i)]) && end_of(s[sel_start(s, r, i)]) > r,
+        forall|j: int| i <= j < sel_start(s, r, i) ==> is_skip(#[trigger] s[j]) || end_of(s[j]) <= r,
+    decreases s.len() - i,
+{
+    if i < s.len() && !(!is_skip(s[i]) && end_of(s[i]) > r) {
+        lemma_sel_start(s, r, i + 1);
+    }
+}
+
+/// from the selection map through `filter .. collect` and `sort_by` to the listing that is written
+pub proof fn lemma_sorted_listing(sel: Map<ClientID, (u32, Vec<&Block>)>, u: Map<ClientID, Vec<Block>>, remote: Map<ClientID, u32>,
+    v0: Seq<(&ClientID, &(u32, Vec<&Block>))>, v: Seq<(&ClientID, &(u32, Vec<&Block>))>)
+    requires
+        sel_inv(sel, u, remote, ISet::full()),
+        // contract of vx_filter_nonempty
+        forall|i: int| 0 <= i < v0.len() ==> sel.contains_key(*(#[trigger] v0[i]).0) && sel[*v0[i].0] == *v0[i].1 && v0[i].1.1@.len() > 0,
+        forall|i: int, j: int| 0 <= i < j < v0.len() ==> *(#[trigger] v0[i]).0 != *(#[trigger] v0[j]).0,
+        forall|k: ClientID| sel.contains_key(k) && sel[k].1@.len() > 0 ==> exists|i: int| 0 <= i < v0.len() && *(#[trigger] v0[i]).0 == k,
+        // contract of vx_sort_by_client_desc
+        v.len() == v0.len(),
+        exists|p: Seq<int>| is_permutation(p, v0.len() as int) && forall|i: int| 0 <= i < p.len() ==> #[trigger] v[i] == v0[p[i]],
+        forall|i: int, j: int| 0 <= i < j < v.len() ==> (#[trigger] v[i]).0.0 >= (#[trigger] v[j]).0.0,
+    ensures
+        sel_listing(sel_views(v), u, remote),
+{
+    let es = sel_views(v);
+    let p = choose|p: Seq<int>| is_permutation(p, v0.len() as int) && forall|i: int| 0 <= i < p.len() ==> #[trigger] v[i] == v0[p[i]];
+    assert forall|i: int| 0 <= i < es.len() implies sel_view_ok(#[trigger] es[i], u, remote) by {
+        assert(v[i] == v0[p[i]]);
+        let c = *v[i].0;
+        assert(sel.contains_key(c) && sel[c] == *v[i].1);
+        assert(ISet::<ClientID>::full().contains(c));
+        assert(selected(u, remote, c));
+        let bs = u[c]@;
+        let k = sel_start(views(bs), sv_get(remote, c) as int, 0);
+        assert(sel_entry_ok(sel[c], bs, sv_get(remote, c) as int));
+        assert(es[i].blocks =~= bs.skip(k));
+    }
+    assert forall|i: int, j: int| 0 <= i < j < es.len() implies (#[trigger] es[i]).client.0 > (#[trigger] es[j]).client.0 by {
+        assert(v[i] == v0[p[i]] && v[j] == v0[p[j]]);
+        assert(p[i] != p[j]);
+        if p[i] < p[j] {
+            assert(*v0[p[i]].0 != *v0[p[j]].0);
+        } else {
+            assert(*v0[p[j]].0 != *v0[p[i]].0);
+        }
+        assert(v[i].0.0 >= v[j].0.0);
+    }
+    assert forall|c: ClientID| selected(u, remote, c) implies exists|i: int| 0 <= i < es.len() && (#[trigger] es[i]).client == c by {
+        assert(ISet::<ClientID>::full().contains(c));
+        assert(sel.contains_key(c));
+        assert(sel_entry_ok(sel[c], u[c]@, sv_get(remote, c) as int));
+        let i0 = choose|i: int| 0 <= i < v0.len() && *(#[trigger] v0[i]).0 == c;
+        assert(perm_hits(p, i0));
+        let i = choose|i: int| 0 <= i < p.len() && #[trigger] p[i] == i0;
+        assert(v[i] == v0[p[i]]);
+        assert(es[i].client == c);
+    }
+}
+
+// ---------------------------------------------------------------------------------------------
+// what the contracts mean (pure lemmas over the views)
+// ---------------------------------------------------------------------------------------------
+/// the update carries clock `k` of this client: it lies in a non-skip block
+pub open spec fn carries(s: Seq<BlockView>, k: int) -> bool {
+    exists|i: int| 0 <= i < s.len() && !is_skip(#[trigger] s[i]) && s[i].clock <= k < end_of(s[i])
+}
+
+/// ... in one of the first `n` blocks
+pub open spec fn carried_before(s: Seq<BlockView>, n: int, k: int) -> bool {
+    exists|i: int| 0 <= i < n && i < s.len() && !is_skip(#[trigger] s[i]) && s[i].clock <= k < end_of(s[i])
+}
+
+/// blocks do not overlap and are ordered by clock
+pub open spec fn list_sorted(s: Seq<BlockView>) -> bool {
+    forall|i: int, j: int| 0 <= i < j < s.len() ==> end_of(#[trigger] s[i]) <= (#[trigger] s[j]).clock
+}
+
+pub proof fn lemma_contiguous_sorted(s: Seq<BlockView>)
+    requires
+        list_ok(s),
+        list_contiguous(s),
+    ensures
+        list_sorted(s),
+{
+    assert forall|i: int, j: int| 0 <= i < j < s.len() implies end_of(#[trigger] s[i]) <= (#[trigger] s[j]).clock by {
+        lemma_contiguous_le(s, i, j);
+    }
+}
+
+pub proof fn lemma_contiguous_le(s: Seq<BlockView>, i: int, j: int)
+    requires
+        list_ok(s),
+        list_contiguous(s),
+        0 <= i < j < s.len(),
+    ensures
+        end_of(s[i]) <= s[j].clock,
+    decreases j - i,
+{
+    if j == i + 1 {
+        assert(end_of(s[i]) == s[j].clock);
+    } else {
+        lemma_contiguous_le(s, i, j - 1);
+        assert(end_of(s[j - 1]) == s[j].clock);
+        assert(s[j - 1].len >= 0);
+    }
+}
+
+pub proof fn lemma_first_skip(s: Seq<BlockView>, i: int)
+    requires
+        0 <= i <= s.len(),
+    ensures
+        i <= first_skip(s, i) <= s.len(),
+        first_skip(s, i) < s.len() ==> is_skip(s[first_skip(s, i)]),
+        forall|j: int| i <= j < first_skip(s, i) ==> !is_skip(#[trigger] s[j]),
+    decreases s.len() - i,
+{
+    if i < s.len() && !is_skip(s[i]) {
+        lemma_first_skip(s, i + 1);
+    }
+}
+
+pub proof fn lemma_first_non_skip(s: Seq<BlockView>, i: int)
+    requires
+        0 <= i <= s.len(),
+    ensures
+        i <= first_non_skip(s, i) <= s.len(),
+        first_non_skip(s, i) < s.len() ==> !is_skip(s[first_non_skip(s, i)]),
+        forall|j: int| i <= j < first_non_skip(s, i) ==> is_skip(#[trigger] s[j]),
+    decreases s.len() - i,
+{
+    if i < s.len() && is_skip(s[i]) {
+        lemma_first_non_skip(s, i + 1);
+    }
+}
+
+/// in a contiguous list that starts at clock 0, the first `n` blocks cover every clock below the end of the n-th
+pub proof fn lemma_prefix_covered(s: Seq<BlockView>, n: int, k: int)
+    requires
+        list_ok(s),
+        list_contiguous(s),
+        0 < n <= s.len(),
+        s[0].clock == 0,
+        0 <= k < end_of(s[n - 1]),
+    ensures
+        exists|i: int| 0 <= i < n && (#[trigger] s[i]).clock <= k < end_of(s[i]),
+    decreases n,
+{
+    if k >= s[n - 1].clock {
+        assert(s[n - 1].clock <= k < end_of(s[n - 1]));
+    } else {
+        assert(n > 1);
+        assert(end_of(s[n - 2]) == s[n - 1].clock);
+        lemma_prefix_covered(s, n - 1, k);
+        let i = choose|i: int| 0 <= i < n - 1 && (#[trigger] s[i]).clock <= k < end_of(s[i]);
+        assert(0 <= i < n && s[i].clock <= k < end_of(s[i]));
+    }
+}
+
+/// C08, `state_vector()` / `encode_state_vector_from_update`: what `sv_upper` means for a contiguous list (the
+/// representation invariant `upd_wf`).  The result is the end of the gap-free prefix from clock 0:
+///  * every clock below it is carried by a non-skip block of that prefix,
+///  * the prefix is maximal: it ends with the list or at a Skip that starts exactly at the result,
+///  * for a list without Skip that starts at clock 0 ("gap-free from clock 0") it is the end clock of the last block.
+/// An empty document that integrates blocks covering exactly the clocks [0, n) of a client has state-vector entry n for it
+/// (BlockStore::get_clock = end of the last block of the client's list); that last step -- integration itself -- is NOT
+/// decided here.
+pub proof fn lemma_sv_upper_meaning(s: Seq<BlockView>)
+    requires
+        list_ok(s),
+        list_contiguous(s),
+    ensures
+        0 <= sv_upper(s) <= u32::MAX,
+        forall|k: int| 0 <= k < sv_upper(s) ==> #[trigger] carried_before(s, first_skip(s, 0), k),
+        s.len() > 0 && s[0].clock == 0 ==> ({
+            let n = first_skip(s, 0);
+            n == s.len() || (is_skip(s[n]) && (n > 0 ==> s[n].clock == sv_upper(s)))
+        }),
+        s.len() > 0 && s[0].clock == 0 && (forall|i: int| 0 <= i < s.len() ==> !is_skip(#[trigger] s[i])) ==> sv_upper(s) == end_of(s.last()),
+        !(s.len() > 0 && s[0].clock == 0) ==> sv_upper(s) == 0,
+{
+    lemma_first_skip(s, 0);
+    let n = first_skip(s, 0);
+    if s.len() > 0 && s[0].clock == 0 {
+        if n > 0 {
+            assert forall|k: int| 0 <= k < sv_upper(s) implies #[trigger] carried_before(s, n, k) by {
+                lemma_prefix_covered(s, n, k);
+                let i = choose|i: int| 0 <= i < n && (#[trigger] s[i]).clock <= k < end_of(s[i]);
+                assert(!is_skip(s[i]));
+            }
+            if n < s.len() {
+                assert(end_of(s[n - 1]) == s[n].clock);
+            }
+        }
+        if forall|i: int| 0 <= i < s.len() ==> !is_skip(#[trigger] s[i]) {
+            if n < s.len() {
+                assert(!is_skip(s[n]));
+            }
+        }
+    }
+}
+
+
+/// C08, the second clause as stated: in an update that satisfies the representation invariant, a client whose list is
+/// gap-free from clock 0 (starts at 0, no Skip) gets the end clock `n` of its last block, and the update carries every
+/// clock in [0, n) for it -- what an empty document's state vector shows for the client after integrating those blocks
+/// (that last step is the document side, not decided here).
+pub proof fn lemma_state_vector_gap_free(u: Map<ClientID, Vec<Block>>, c: ClientID)
+    requires
+        upd_wf(u),
+        u.contains_key(c),
+        u[c]@.len() > 0,
+        blocks_of(u, c)[0].clock == 0,
+        forall|i: int| 0 <= i < blocks_of(u, c).len() ==> !is_skip(#[trigger] blocks_of(u, c)[i]),
+    ensures
+        sv_upper(blocks_of(u, c)) == end_of(blocks_of(u, c).last()),
+        forall|k: int| 0 <= k < sv_upper(blocks_of(u, c)) ==> #[trigger] carries(blocks_of(u, c), k),
+{
+    let s = blocks_of(u, c);
+    lemma_sv_upper_meaning(s);
+    assert forall|k: int| 0 <= k < sv_upper(s) implies #[trigger] carries(s, k) by {
+        assert(carried_before(s, first_skip(s, 0), k));
+        let i = choose|i: int| 0 <= i < first_skip(s, 0) && i < s.len() && !is_skip(#[trigger] s[i]) && s[i].clock <= k < end_of(s[i]);
+        assert(0 <= i < s.len() && !is_skip(s[i]) && s[i].clock <= k < end_of(s[i]));
+    }
+}
+
+/// `state_vector_lower()`: the clock of the first non-skip block (0 if there is none)
+pub proof fn lemma_sv_lower_meaning(s: Seq<BlockView>)
+    requires
+        list_ok(s),
+        list_sorted(s),
+    ensures
+        // nothing the update carries lies below it
+        forall|k: int| #[trigger] carries(s, k) ==> sv_lower(s) <= k,
+        // and, unless the update carries nothing, the clock itself is carried (a 0-length GC block aside)
+        first_non_skip(s, 0) < s.len() && s[first_non_skip(s, 0)].len > 0 ==> carries(s, sv_lower(s)),
+{
+    lemma_first_non_skip(s, 0);
+    let n = first_non_skip(s, 0);
+    assert forall|k: int| #[trigger] carries(s, k) implies sv_lower(s) <= k by {
+        let i = choose|i: int| 0 <= i < s.len() && !is_skip(#[trigger] s[i]) && s[i].clock <= k < end_of(s[i]);
+        if i < n {
+            assert(is_skip(s[i]));
+        } else if i > n {
+            assert(end_of(s[n]) <= s[i].clock);
+        }
+    }
+    if n < s.len() && s[n].len > 0 {
+        assert(!is_skip(s[n]) && s[n].clock <= sv_lower(s) < end_of(s[n]));
+    }
+}
+
+/// clock `k` is written by the section `e`: it lies in a non-skip block of the section, the first one taken from
+/// `clock + offset` on
+pub open spec fn section_sends(e: SelView, k: int) -> bool {
+    exists|j: int| 0 <= j < e.blocks.len() && !is_skip((#[trigger] e.blocks[j]).bv())
+        && e.blocks[j].bv().clock + (if j == 0 { e.offset as int } else { 0 }) <= k < end_of(e.blocks[j].bv())
+}
+
+/// the clock the READER attributes to the j-th block of a section: the section's clock header plus the lengths written
+/// so far (`Update::decode`: `clock += block.len()`)
+pub open spec fn reader_clock(e: SelView, j: int) -> int
+    decreases j,
+{
+    if j <= 0 {
+        e.blocks[0].bv().clock + e.offset
+    } else {
+        reader_clock(e, j - 1) + e.blocks[j - 1].bv().len - (if j == 1 { e.offset as int } else { 0 })
+    }
+}
+
+/// C08, `encode_diff` / `diff_updates`: the section written for a selected client, read against the receiver's clock `r`.
+///  (1) nothing the receiver lacks is omitted: every clock >= r that the update carries for the client is written;
+///  (2) the first written clock is max(r, first.clock), and (for an ordered list) nothing the receiver already has is
+///      written: every written clock is >= r and is carried by the update;
+///  (3) for a contiguous list the reader re-derives every block's own clock (the first block's cut by the offset), i.e.
+///      the blocks keep their ids on the way through the encoding.
+pub proof fn lemma_section_exact(e: SelView, u: Map<ClientID, Vec<Block>>, remote: Map<ClientID, u32>)
+    requires
+        upd_ok(u),
+        sel_view_ok(e, u, remote),
+    ensures
+        forall|k: int| #[trigger] carries(blocks_of(u, e.client), k) && k >= sv_get(remote, e.client) ==> section_sends(e, k),
+        e.blocks[0].bv().clock + e.offset == (if sv_get(remote, e.client) > e.blocks[0].bv().clock { sv_get(remote, e.client) as int } else { e.blocks[0].bv().clock }),
+        list_sorted(blocks_of(u, e.client)) ==> forall|k: int| #[trigger] section_sends(e, k) ==> carries(blocks_of(u, e.client), k) && k >= sv_get(remote, e.client),
+        list_contiguous(blocks_of(u, e.client)) ==> forall|j: int| 0 <= j < e.blocks.len() ==>
+            #[trigger] reader_clock(e, j) == e.blocks[j].bv().clock + (if j == 0 { e.offset as int } else { 0 }),
+{
+    let c = e.client;
+    let bs = u[c]@;
+    let s = views(bs);
+    let r = sv_get(remote, c) as int;
+    let f = sel_start(s, r, 0);
+    assert(blocks_of(u, c) == s);
+    assert(list_ok(s));
+    lemma_sel_start(s, r, 0);
+    assert(e.blocks[0] == bs[f] && s[f] == bs[f].bv());
+    assert forall|k: int| #[trigger] carries(s, k) && k >= r implies section_sends(e, k) by {
+        let i = choose|i: int| 0 <= i < s.len() && !is_skip(#[trigger] s[i]) && s[i].clock <= k < end_of(s[i]);
+        if i < f {
+            assert(is_skip(s[i]) || end_of(s[i]) <= r);
+        } else {
+            let j = i - f;
+            assert(e.blocks[j] == bs[f + j] && s[i] == bs[i].bv());
+            assert(!is_skip(e.blocks[j].bv()) && e.blocks[j].bv().clock + (if j == 0 { e.offset as int } else { 0 }) <= k < end_of(e.blocks[j].bv()));
+        }
+    }
+    if list_sorted(s) {
+        assert forall|k: int| #[trigger] section_sends(e, k) implies carries(s, k) && k >= r by {
+            let j = choose|j: int| 0 <= j < e.blocks.len() && !is_skip((#[trigger] e.blocks[j]).bv())
+                && e.blocks[j].bv().clock + (if j == 0 { e.offset as int } else { 0 }) <= k < end_of(e.blocks[j].bv());
+            assert(e.blocks[j] == bs[f + j] && s[f + j] == bs[f + j].bv());
+            assert(!is_skip(s[f + j]) && s[f + j].clock <= k < end_of(s[f + j]));
+            if j > 0 {
+                assert(end_of(s[f]) <= s[f + j].clock);
+            }
+        }
+    }
+    if list_contiguous(s) {
+        assert forall|j: int| 0 <= j < e.blocks.len() implies
+            #[trigger] reader_clock(e, j) == e.blocks[j].bv().clock + (if j == 0 { e.offset as int } else { 0 }) by {
+            lemma_reader_clock(e, s, f, j);
+        }
+    }
+}
+
+pub proof fn lemma_reader_clock(e: SelView, s: Seq<BlockView>, f: int, j: int)
+    requires
+        list_contiguous(s),
+        0 <= f,
+        e.blocks.len() == s.len() - f,
+        forall|i: int| 0 <= i < e.blocks.len() ==> (#[trigger] e.blocks[i]).bv() == s[f + i],
+        0 <= j < e.blocks.len(),
+    ensures
+        reader_clock(e, j) == e.blocks[j].bv().clock + (if j == 0 { e.offset as int } else { 0 }),
+    decreases j,
+{
+    if j > 0 {
+        lemma_reader_clock(e, s, f, j - 1);
+        assert(e.blocks[j - 1].bv() == s[f + j - 1] && e.blocks[j].bv() == s[f + j]);
+        assert(end_of(s[f + j - 1]) == s[f + j].clock);
+    }
+}
+
+/// C08, `encode_diff` as a whole (the consequence of its contract `sel_listing`): for EVERY client, the written update
+/// carries exactly the clocks of `u` that a receiver with state vector `remote` lacks.
+pub proof fn lemma_diff_exact(es: Seq<SelView>, u: Map<ClientID, Vec<Block>>, remote: Map<ClientID, u32>, c: ClientID, k: int)
+    requires
+        upd_ok(u),
+        sel_listing(es, u, remote),
+    ensures
+        // nothing the receiver lacks is omitted
+        carries(blocks_of(u, c), k) && k >= sv_get(remote, c) ==> exists|i: int| 0 <= i < es.len() && (#[trigger] es[i]).client == c && section_sends(es[i], k),
+        // nothing it already has (and nothing foreign) is sent
+        list_sorted(blocks_of(u, c)) ==> forall|i: int| 0 <= i < es.len() && (#[trigger] es[i]).client == c && section_sends(es[i], k)
+            ==> carries(blocks_of(u, c), k) && k >= sv_get(remote, c),
+{
+    let s = blocks_of(u, c);
+    let r = sv_get(remote, c) as int;
+    if carries(s, k) && k >= r {
+        assert(u.contains_key(c));
+        assert(s == views(u[c]@));
+        lemma_sel_start(s, r, 0);
+        let i0 = choose|i: int| 0 <= i < s.len() && !is_skip(#[trigger] s[i]) && s[i].clock <= k < end_of(s[i]);
+        // the carrying block is not one of the skipped ones, so the client is selected
+        if sel_start(s, r, 0) >= s.len() {
+            assert(is_skip(s[i0]) || end_of(s[i0]) <= r);
+        }
+        assert(selected(u, remote, c));
+        let i = choose|i: int| 0 <= i < es.len() && (#[trigger] es[i]).client == c;
+        lemma_section_exact(es[i], u, remote);
+    }
+    if list_sorted(s) {
+        assert forall|i: int| 0 <= i < es.len() && (#[trigger] es[i]).client == c && section_sends(es[i], k)
+            implies carries(s, k) && k >= r by {
+            lemma_section_exact(es[i], u, remote);
+        }
+    }
+}
+
+// ---------------------------------------------------------------------------------------------
+// the real code: Update::state_vector, Update::state_vector_lower, Update::encode_diff, <Update as Encode>::encode
+// ---------------------------------------------------------------------------------------------
 impl Update {
+    // C08 / encode_state_vector_from_update.  Inner loop: `first_skip(s, 0) == first_skip(s, index)` says that no Skip
+    // has been met so far; at the `break` the block is the first Skip, at the normal exit there is none.
     /*@extract yrs/src/update.rs | impl Update | fn state_vector | label=Update.state_vector
     @ret r
     @sig
@@ -523,6 +1366,31 @@ impl Update {
         }
     @*/
 }
+
+// One STEP of `state_vector` once more, lifted on its own (R18 statement region; same source text): what is computed for
+// one client's list.  As a function of its own its result is a CONTRACT clause (see the note at `encode_diff_offset`).
+/*@extract yrs/src/update.rs | impl Update | region state_vector | stmt=stmt:let last_clock | upto=stmt:if | tail=last_clock | label=state_vector_client
+@header
+    fn state_vector_client(blocks: &Vec<Block>) -> (r: u32)
+@sig
+    requires
+        list_ok(views(blocks@)),
+    ensures
+        r == sv_upper(views(blocks@)),
+@start
+    let ghost s = views(blocks@);
+@loop 1 iter=it2
+    invariant_except_break
+        first_skip(s, 0) == first_skip(s, it2.index@ as int),
+        last_clock == (if it2.index@ == 0 { 0 } else { end_of(s[it2.index@ - 1]) }),
+    invariant
+        s == views(blocks@),
+        list_ok(s),
+        it2.seq().len() == blocks@.len(),
+        forall|j: int| 0 <= j < blocks@.len() ==> *(#[trigger] it2.seq()[j]) == blocks@[j],
+    ensures
+        last_clock == (if first_skip(s, 0) == 0 { 0 } else { end_of(s[first_skip(s, 0) - 1]) }),
+@*/
 
 impl Update {
     /*@extract yrs/src/update.rs | impl Update | fn state_vector_lower | label=Update.state_vector_lower
@@ -570,6 +1438,215 @@ impl Update {
         proof {
             assert(forall|c: ClientID| u.contains_key(c) ==> vx_seen.contains(c));
         }
+    @*/
+}
+
+
+impl Update {
+    // C08 / diff_updates.  Loops: 1 = clients of the update (selection), 2 = `while let` over one client's list up to the
+    // first selected block, 3 = `while let` that pushes the rest of the list, 4 = sections in writing order, 5 = blocks of a
+    // section after the first.  The cursor of loops 2/3 is read off the slice iterator (`pos`, `cursor_ok`); `sel_done` is
+    // what loop 2 leaves in `clients` for the current client; `lemma_sel_step` folds it into `sel_inv`; `lemma_sorted_listing`
+    // takes `sel_inv` through the two trusted std stand-ins to `sel_listing`; loops 4/5 follow `emit_sections`/`emit_blocks`.
+    /*@extract yrs/src/update.rs | impl Update | fn encode_diff | label=Update.encode_diff
+    @sig
+        requires
+            upd_ok(self.blocks.clients@),
+            upd_items_ok(self.blocks.clients@),
+        ensures
+            exists|es: Seq<SelView>| sel_listing(es, self.blocks.clients@, remote_sv@)
+                && final(encoder).log() == emit_update(old(encoder).log(), es, self.delete_set),
+    @after 1 `stmt:let clients`
+        let ghost u = self.blocks.clients@;
+        let ghost remote = remote_sv@;
+        let ghost l0 = encoder.log();
+        let ghost mut vx_seen = ISet::<ClientID>::empty();
+    @loop 1 iter=it
+        invariant
+            u == self.blocks.clients@,
+            remote == remote_sv@,
+            encoder.log() == l0,
+            upd_ok(u),
+            iter_of(it.snapshot@.remaining(), u),
+            0 <= it.index@ <= it.snapshot@.remaining().len(),
+            vx_seen =~= keys_upto(it.snapshot@.remaining(), it.index@),
+            sel_inv(clients@, u, remote, vx_seen),
+    @after 1 `stmt:let iter`
+        let ghost rem0 = iter.remaining();
+        let ghost bs = blocks@;
+        let ghost s = views(bs);
+        let ghost rc = remote_clock as int;
+        let ghost m0 = clients@;
+        proof {
+            lemma_keys_upto_step(it.snapshot@.remaining(), u, it.index@);
+            assert(u.contains_key(*client) && u[*client] == *blocks);
+            assert(list_ok(s));
+        }
+    @loop 2
+        invariant
+            iter.obeys_prophetic_iter_laws(),
+            iter.decrease() is Some,
+            bs == blocks@,
+            s == views(bs),
+            list_ok(s),
+            rc == remote_clock,
+            rem0.len() == bs.len(),
+            forall|j: int| 0 <= j < bs.len() ==> *(#[trigger] rem0[j]) == bs[j],
+            !m0.contains_key(*client),
+            cursor_ok(rem0, iter.remaining(), curr),
+            curr is Some ==> clients@ == m0 && sel_start(s, rc, 0) == sel_start(s, rc, pos(rem0, iter.remaining(), curr)),
+            curr is None ==> sel_done(clients@, m0, *client, bs, rc),
+        ensures
+            sel_done(clients@, m0, *client, bs, rc),
+        decreases (if curr is Some { iter.decrease().unwrap() + 1 } else { 0nat }),
+    @closure 1 `|| -> (vx_r: (u32, Vec<&Block>))`
+        ensures vx_r.1@.len() == 0,
+    @before 1 `stmt:let e`
+        let ghost k = pos(rem0, iter.remaining(), curr);
+        let ghost off = sel_offset(s[k], rc);
+        proof {
+            assert(*block == bs[k]);
+            assert(sel_start(s, rc, 0) == k);
+        }
+    @loop 3
+        invariant
+            iter.obeys_prophetic_iter_laws(),
+            iter.decrease() is Some,
+            rem0.len() == bs.len(),
+            0 <= k < bs.len(),
+            cursor_ok(rem0, iter.remaining(), curr),
+            k < pos(rem0, iter.remaining(), curr) <= bs.len(),
+            e.0 == off,
+            e.1@ =~= rem0.subrange(k, pos(rem0, iter.remaining(), curr)),
+        ensures
+            curr is None,
+            e.0 == off,
+            e.1@ =~= rem0.subrange(k, bs.len() as int),
+        decreases (if curr is Some { iter.decrease().unwrap() + 1 } else { 0nat }),
+    @after 1 `stmt:if`
+        proof {
+            assert(sel_start(s, rc, bs.len() as int) == bs.len());
+            if clients@ != m0 {
+                assert(sel_entry_ok(clients@[*client], bs, rc));
+            }
+        }
+    @after 1 `stmt:while`
+        proof {
+            lemma_sel_step(clients@, m0, u, remote, vx_seen, *client);
+            vx_seen = vx_seen.insert(*client);
+        }
+    @before 1 `stmt:let sorted_clients`
+        proof {
+            // every client of the update has been looked at: `clients` is the selection (`sel_inv` over all clients)
+            assert(forall|c: ClientID| selected(u, remote, c) ==> vx_seen.contains(c));
+            assert(sel_inv(clients@, u, remote, ISet::full()));
+        }
+    @after 1 `stmt:let sorted_clients`
+        let ghost v0 = sorted_clients@;
+    @after 1 `stmt:call vx_sort_by_client_desc`
+        let ghost v = sorted_clients@;
+        let ghost es = sel_views(v);
+        proof {
+            lemma_sorted_listing(clients@, u, remote, v0, v);
+        }
+    @after 1 `stmt:call write_var`
+        let ghost l1 = encoder.log();
+    @loop 4 iter=it
+        invariant
+            it.seq() == v,
+            es == sel_views(v),
+            sel_listing(es, u, remote),
+            upd_ok(u),
+            upd_items_ok(u),
+            encoder.log() == emit_sections(l1, es, it.index@ as int),
+    @before 2 `stmt:call write_var`
+        let ghost i = it.index@ as int;
+        let ghost e = es[i];
+        let ghost lb = encoder.log();
+        proof {
+            assert(e == sel_view(vx_e));
+            lemma_section_encodable(e, u, remote);
+            assert(forall|j: int| 0 <= j < blocks@.len() ==> *(#[trigger] blocks@[j]) == e.blocks[j]);
+        }
+    @after 3 `stmt:call write_var`
+        let ghost l3 = encoder.log();
+        proof {
+            assert(l3 == emit_section_head(lb, e));
+            assert(emit_blocks(l3, e.blocks, e.offset, 0) == l3);
+        }
+    @loop 5
+        invariant
+            1 <= i <= blocks@.len(),
+            blocks@.len() == e.blocks.len(),
+            forall|j: int| 0 <= j < blocks@.len() ==> *(#[trigger] blocks@[j]) == e.blocks[j],
+            section_encodable(e),
+            encoder.log() == emit_blocks(l3, e.blocks, e.offset, i as int),
+    @after 3 `stmt:for`
+        proof {
+            assert(encoder.log() == emit_section(lb, e));
+        }
+    @before 1 `stmt:call encode_id_set`
+        proof {
+            assert(encoder.log() == emit_sections(l1, es, es.len() as int));
+        }
+    @*/
+}
+
+// Two STEPS of `encode_diff` once more, each lifted on its own (R18 statement regions; same source text).  The point is the
+// verdict level: an edit of these statements then fails a CONTRACT clause of a real-code function (post) and not only a
+// loop invariant / assert spliced into `Update.encode_diff` (a proof hint).
+//   step 1: the offset stored for the first selected block
+/*@extract yrs/src/update.rs | impl Update | region encode_diff | stmt=stmt:assign e | stmtnth=1 | label=encode_diff_offset
+@header
+    fn encode_diff_offset(e: &mut (u32, Vec<&Block>), remote_clock: u32, block: &Block)
+@sig
+    ensures
+        final(e).0 == sel_offset(block.bv(), remote_clock as int),
+        final(e).1 == old(e).1,
+@*/
+
+//   step 2: one client section (the body of the writing loop)
+/*@extract yrs/src/update.rs | impl Update | region encode_diff | stmt=stmt:call write_var | stmtnth=2 | upto=stmt:for | uptonth=3 | label=encode_diff_section
+@header
+    fn encode_diff_section<E: Encoder>(encoder: &mut E, client: ClientID, offset: &u32, blocks: &Vec<&Block>)
+@sig
+    requires
+        section_encodable(section_view(client, *offset, blocks@)),
+    ensures
+        final(encoder).log() == emit_section(old(encoder).log(), section_view(client, *offset, blocks@)),
+@start
+    let ghost e = section_view(client, *offset, blocks@);
+    let ghost lb = encoder.log();
+    proof {
+        // (facts about the view only: they cannot fail, whatever the code does)
+        assert(e.blocks.len() == blocks@.len() && e.blocks[0] == *blocks@[0]);
+    }
+@before 1 `stmt:call encode_with_offset`
+    let ghost l3 = encoder.log();
+    proof {
+        assert(emit_blocks(l3, e.blocks, e.offset, 0) == l3);
+    }
+@loop 1
+    invariant
+        1 <= i <= blocks@.len(),
+        blocks@.len() == e.blocks.len(),
+        forall|j: int| 0 <= j < blocks@.len() ==> *(#[trigger] blocks@[j]) == e.blocks[j],
+        section_encodable(e),
+        l3 == emit_section_head(lb, e) ==> encoder.log() == emit_blocks(l3, e.blocks, e.offset, i as int),
+@*/
+
+impl Update {
+    // real: `impl Encode for Update` (emitted as an inherent method: a trait-method impl cannot carry `requires`).
+    // The whole update is the diff against the empty state vector: every client that has a non-skip block of positive
+    // end clock gets a section, from its first such block on, with offset 0.
+    /*@extract yrs/src/update.rs | impl Encode for Update | fn encode | label=Update.encode
+    @sig
+        requires
+            upd_ok(self.blocks.clients@),
+            upd_items_ok(self.blocks.clients@),
+        ensures
+            exists|es: Seq<SelView>| sel_listing(es, self.blocks.clients@, Map::<ClientID, u32>::empty())
+                && final(encoder).log() == emit_update(old(encoder).log(), es, self.delete_set),
     @*/
 }
 
